@@ -31,5 +31,6 @@ def describe(meta, fname, t):
     out = c.get("run_bytes", c["bytes"]) if kind == 1 else c["bytes"]
     return {"key": "%d|%s" % (kind, c["value"]), "value": c["value"], "bytes": out, "via": via, "mkind": kind, "failed": j,
             "tags": c.get("tags", []), "kinds": [c.get("kind", "")],
-            "what": "%s output %s: value=%s bytes=%s" % (via, why, c["value"], out[:200]),
+            "what": "%s output %s: value=%s bytes=%s%s" % (via, why, c["value"], out[:200],
+                                                        "".join(" [%s]" % t for t in c.get("tags", []) if t.startswith("built-from-nil"))),
             "theorem": "C09.json_parse_back / json_canonical"}
